@@ -50,6 +50,7 @@ type Contract struct {
 	GhostExit  []*Clause
 	EnsuresPre []*Clause // checked at exits before the ghost-exit assignments
 	ClosureGhost []*Clause // ghost assignments performed where the closure is created
+	Decreases    []*Clause // recursion variant: strictly smaller and non-negative at every recursive call
 }
 
 type GhostVar struct {
@@ -269,6 +270,8 @@ func (cs *Contracts) loadFile(path string) error {
 			lastClause = nil
 		case "requires":
 			cur.Requires = append(cur.Requires, cl)
+		case "decreases":
+			cur.Decreases = append(cur.Decreases, cl)
 		case "ensures":
 			cur.Ensures = append(cur.Ensures, cl)
 		case "ensures-before-exit":
@@ -404,6 +407,7 @@ func (cs *Contracts) ParseAll() error {
 		all = append(all, c.GhostExit...)
 		all = append(all, c.EnsuresPre...)
 		all = append(all, c.ClosureGhost...)
+		all = append(all, c.Decreases...)
 		for _, l := range c.Loops {
 			all = append(all, l...)
 		}
